@@ -152,6 +152,8 @@ struct Cfg {
     watch: bool,
     /// name this directory (which holds the files) on the command line instead of the files
     arg_dir: Option<String>,
+    /// further lines for the shim's plan (directory listing faults)
+    plan_extra: String,
 }
 
 impl Cfg {
@@ -164,6 +166,7 @@ impl Cfg {
             files: Vec::new(),
             watch: false,
             arg_dir: None,
+            plan_extra: String::new(),
         }
     }
 }
@@ -295,6 +298,7 @@ fn spawn_cfg(case: &Case, input: &[u8], cfg: &Cfg, paths: &[String], ctx: &mut C
         if cfg.watch {
             plan.push_str("watch 0\nwatch 1\nwatch 2\n");
         }
+        plan.push_str(&cfg.plan_extra);
         std::fs::write(&planp, plan).map_err(|e| e.to_string())?;
         cmd.env("LD_PRELOAD", shim_path());
         cmd.env("IOFAULT_PLAN", &planp);
@@ -452,7 +456,7 @@ impl Property for C20 {
         true
     }
     fn rule(&self) -> &'static str {
-        "A scenario = the real jawk executable (release build of the working tree, guard off) run as child processes on a generated clean or noisy stream (occasionally > 16 KiB of output) x one of the four --on-error policies x a pipeline of any class x row separators with and without a newline x {valid configuration, configuration rejected by go, configuration rejected by clap}, with stdin/stdout/stderr on regular files in /dev/shm. Families: 'valid'/'invalid' (fault-free child vs in-process jawk::go for the same argv and input: fd 1 must carry exactly go's stdout sink, fd 2 exactly go's stderr sink plus, on failure, a message; exit status 0 iff go returned Ok); 'read-fault' / 'write-fault' / 'err-fault' (LD_PRELOAD shim fails read(0) / write(1) / write(2) at a seeded byte offset with EIO, ENOSPC, EPIPE, EAGAIN, EACCES..., sticky or recovering, after seeded EINTR and short transfers); 'transparent' (EINTR/short only); 'preset' (/dev/full, a pipe whose read end is closed, a pipe drained by the harness); 'file-read-fault' (1..3 real file arguments, optionally behind a directory argument, read(2) on one of them failing at a seeded offset: the shim interposes open/openat); 'stdin-preset' (fd 0 closed or a directory); 'stderr-preset' (/dev/full or closed pipe as standard error); 'missing-file'; 'info' (--version/--help); every child has a non-UTF-8 environment variable; invalid configurations also run with an unwritable standard error; noise is no failure (same configuration on the garbage-free stream). evaluations = child processes + in-process reference runs; non-trivial = a planned fault was delivered according to the shim's own event log, or diagnostics/rows had to be routed (noisy stream under stderr/stdout policy), or a hostile preset sink received output; distinct = distinct abstract traces (shim event kinds per fd, exit class, preset)."
+        "A scenario = the real jawk executable (release build of the working tree, guard off) run as child processes on a generated clean or noisy stream (occasionally > 16 KiB of output) x one of the four --on-error policies x a pipeline of any class x row separators with and without a newline x {valid configuration, configuration rejected by go, configuration rejected by clap}, with stdin/stdout/stderr on regular files in /dev/shm. Families: 'valid'/'invalid' (fault-free child vs in-process jawk::go for the same argv and input: fd 1 must carry exactly go's stdout sink, fd 2 exactly go's stderr sink plus, on failure, a message; exit status 0 iff go returned Ok); 'read-fault' / 'write-fault' / 'err-fault' (LD_PRELOAD shim fails read(0) / write(1) / write(2) at a seeded byte offset with EIO, ENOSPC, EPIPE, EAGAIN, EACCES..., sticky or recovering, after seeded EINTR and short transfers); 'transparent' (EINTR/short only); 'preset' (/dev/full, a pipe whose read end is closed, a pipe drained by the harness); 'file-read-fault' (1..3 real file arguments, optionally behind a directory argument, read(2) on one of them failing at a seeded offset: the shim interposes open/openat); 'dir-list-fault' (1..3 real files inside a directory argument, flat or one level down; the shim interposes opendir/readdir64/closedir and fails opendir or the k-th readdir64 of one directory: non-zero status, a message, stdout a prefix of the fault-free child's); 'stdin-preset' (fd 0 closed or a directory); 'stderr-preset' (/dev/full or closed pipe as standard error); 'missing-file'; 'info' (--version/--help); every child has a non-UTF-8 environment variable; invalid configurations also run with an unwritable standard error; noise is no failure (same configuration on the garbage-free stream). evaluations = child processes + in-process reference runs; non-trivial = a planned fault was delivered according to the shim's own event log, or diagnostics/rows had to be routed (noisy stream under stderr/stdout policy), or a hostile preset sink received output; distinct = distinct abstract traces (shim event kinds per fd, exit class, preset)."
     }
     fn assumptions(&self) -> Vec<String> {
         vec![
@@ -484,7 +488,8 @@ impl Property for C20 {
     }
 
     fn generate(&self, rng: &mut Rng, tier: Tier) -> Case {
-        let family = match rng.below(27) {
+        let family = match rng.below(29) {
+            27..=28 => "dir-list-fault",
             0..=4 => "valid",
             5..=6 => "invalid",
             7..=9 => "read-fault",
@@ -665,6 +670,27 @@ impl Property for C20 {
                     case.set("as_dir", 1);
                 }
             }
+            "dir-list-fault" => {
+                // the input arrives as 1..3 files inside a directory argument (flat, or the
+                // later files one level down); listing a directory fails
+                let inside = rng.chance(1, 4);
+                super::c17::place_cuts(rng, &mut case, inside);
+                let n = split_files(&case).len();
+                case.files = (0..n).map(|_| FilePlan::default()).collect();
+                case.set("layout", if n >= 2 && rng.chance(1, 2) { 3 } else { 1 });
+                let which = rng.below(2);
+                // positions count what readdir returns, "." and ".." included
+                let at = rng.below(n + 4);
+                let kind = *rng.pick(&[ErrKind::Other, ErrKind::PermissionDenied, ErrKind::TimedOut, ErrKind::ConnectionReset]);
+                let mut plans = vec![DirPlan::default(), DirPlan::default()];
+                if rng.chance(1, 5) {
+                    plans[which].open_fails = Some(kind);
+                } else {
+                    plans[which].entry_fault = Some(Fault { at, kind, sticky: true });
+                }
+                case.dirs = plans;
+                case.opts.retain(|o| !o.iter().any(|t| t.contains("&file-name")));
+            }
             "stdin-preset" => {
                 case.set("stdin", rng.range(1, 2) as i64);
             }
@@ -704,6 +730,7 @@ impl Property for C20 {
         }
         match case.family.as_str() {
             "file-read-fault" => return check_file_fault(case, ctx),
+            "dir-list-fault" => return check_dir_fault(case, ctx),
             "stdin-preset" => return check_stdin_preset(case, ctx),
             "missing-file" => return check_missing_file(case, ctx),
             "info" => return check_info(case, ctx),
@@ -1132,6 +1159,98 @@ fn check_file_fault_in(case: &Case, ctx: &mut Ctx, datas: &[Vec<u8>], paths: &[S
         return viol(
             "C20.rows-on-stdout",
             format!("under a file read fault standard output is not a prefix of the fault-free output: {} vs {}", show(&r.out), show(&f.out)),
+        );
+    }
+    None
+}
+
+/// Listing a directory argument fails (opendir, or readdir at some entry): the executable
+/// must report it. The listing order is the file system's and the same in both children.
+fn check_dir_fault(case: &Case, ctx: &mut Ctx) -> Option<Violation> {
+    let datas = split_files(case);
+    if case.files.len() != datas.len() {
+        ctx.stats.invalid = true;
+        return None;
+    }
+    let root = ctx.fresh_dir()?;
+    let lay = lay_out(&root, datas.len(), case.param("layout"), ctx.name_style);
+    let res = check_dir_fault_in(case, ctx, &datas, &lay);
+    let _ = std::fs::remove_dir_all(&root);
+    res
+}
+
+fn check_dir_fault_in(case: &Case, ctx: &mut Ctx, datas: &[Vec<u8>], lay: &DirLayout) -> Option<Violation> {
+    let class = classify(&case.opts);
+    let mut cfg = Cfg::plain();
+    cfg.files = datas.to_vec();
+    cfg.arg_dir = Some(lay.args[0].clone());
+    let f = try_spawn!(ctx, spawn_cfg(case, b"", &cfg, &lay.paths, ctx));
+    if f.timed_out {
+        return viol("C20.hang", format!("fault-free child on a directory argument did not finish: {}", f.describe()));
+    }
+    if f.status.is_none() {
+        return viol("C20.exit-fail", format!("fault-free child on a directory argument was killed by a signal: {}", f.describe()));
+    }
+    cfg.with_shim = true;
+    let mut planned = false;
+    for (j, (path, _)) in lay.dirs.iter().enumerate() {
+        let Some(p) = case.dirs.get(j) else { continue };
+        if let Some(k) = p.open_fails {
+            cfg.plan_extra.push_str(&format!("dirfail {path} -1 {}\n", errno_name(k)));
+            planned = true;
+        } else if let Some(fl) = &p.entry_fault {
+            cfg.plan_extra.push_str(&format!("dirfail {path} {} {}\n", fl.at, errno_name(fl.kind)));
+            planned = true;
+        }
+    }
+    if !planned {
+        ctx.stats.invalid = true;
+        return None;
+    }
+    let r = try_spawn!(ctx, spawn_cfg(case, b"", &cfg, &lay.paths, ctx));
+    if r.timed_out {
+        return viol("C20.hang", format!("child under a failing directory listing did not finish within 20 s: {}", r.describe()));
+    }
+    if r.status == Some(97) {
+        return viol("C20.stops", format!("more than 64 calls on a directory listing after its failure: {}", r.describe()));
+    }
+    let delivered = r.log.iter().find(|l| l.0 >= 20 && l.4 == -1).map(|l| (l.0 - 20, l.1, l.3));
+    let Some((j, op, at)) = delivered else {
+        ctx.stats.probe("planned listing fault not delivered (position beyond the listing, or jawk stopped first)");
+        if r.status != f.status || r.out != f.out || r.err != f.err {
+            return viol(
+                "C20.transparent",
+                format!("no listing failure was delivered but the run differs: {} vs {}", r.describe(), f.describe()),
+            );
+        }
+        return None;
+    };
+    ctx.stats.nontrivial = true;
+    ctx.stats.fault(if op == 'D' { "process.dir.open.failed" } else { "process.dir.entry.failed" }, 1);
+    if j > 0 {
+        ctx.stats.probe("listing fault in a nested directory");
+    }
+    if !r.out.is_empty() {
+        ctx.stats.probe("listing fault after rows reached standard output");
+    }
+    let what = if op == 'D' {
+        format!("opendir of directory {j} failed")
+    } else {
+        format!("readdir of directory {j} failed at entry {at}")
+    };
+    if r.status.is_none() {
+        return viol("C20.exit-fail", format!("child killed by a signal when {what}: {}", r.describe()));
+    }
+    if r.status == Some(0) {
+        return viol("C20.exit-fail", format!("{what} but the exit status is 0: {}", r.describe()));
+    }
+    if r.err.is_empty() {
+        return viol("C20.exit-fail", format!("{what}: no message on stderr: {}", r.describe()));
+    }
+    if class != Class::Buffering && policy_of(&case.opts) != Policy::Stdout && !is_prefix(&r.out, &f.out) {
+        return viol(
+            "C20.rows-on-stdout",
+            format!("{what}: standard output is not a prefix of the fault-free output: {} vs {}", show(&r.out), show(&f.out)),
         );
     }
     None
